@@ -199,6 +199,65 @@ func genArmor(ctx *Ctx, emit func(Case)) {
 			}
 		}
 	}
+	// --- frames at the specification's 512-character limit ---------------------------
+	// runs of space / tab / CR / LF / '>' between the frame words (and around
+	// them) bring the raw header (text before the first period) or the raw footer
+	// (text between the second and third period) to exactly L characters
+	{
+		pl := r.Bytes(40)
+		for _, brand := range []string{"", "ACME", strings.Repeat("b", 128)} {
+			gt, _ := saltpack.Armor62Seal(pl, saltpack.MessageTypeEncryption, brand)
+			ps := strings.SplitN(strings.TrimRight(gt, "\n"), ".", 3)
+			hdr, body, ftr := ps[0], ps[1], strings.TrimSuffix(ps[2], ".")
+			pad := func(frame string, L int, where int) string {
+				words := strings.Fields(frame)
+				need := L - len(strings.Join(words, " "))
+				if need < 0 {
+					return frame
+				}
+				run := make([]byte, need)
+				for i := range run {
+					run[i] = prng.Pick(r, byte(' '), byte(' '), byte('\t'), byte('\n'), byte('\r'), byte('>'))
+				}
+				switch where {
+				case 0: // before the first word
+					return string(run) + strings.Join(words, " ")
+				case 1: // after the last word
+					return strings.Join(words, " ") + string(run)
+				default: // between two words
+					k := 1 + r.Intn(len(words)-1)
+					return strings.Join(words[:k], " ") + " " + string(run) + strings.Join(words[k:], " ")
+				}
+			}
+			for _, L := range []int{200, 300, 510, 511, 512, 513, 514, 600, 1000} {
+				for where := 0; where < 3; where++ {
+					for side := 0; side < 2; side++ {
+						L, where, side, brand := L, where, side, brand
+						h2, f2 := hdr, ftr
+						if side == 0 {
+							h2 = pad(hdr, L, where)
+						} else {
+							f2 = pad(ftr, L, where)
+						}
+						text := h2 + "." + body + "." + f2 + "."
+						for _, expect := range []string{"none", "0"} {
+							l := fmt.Sprintf("armor.open %s %s", expect, keys.Hex([]byte(text)))
+							o := goExec(l)
+							emit(Case{Stream: "armor.open.framelimit", Line: l, GoOut: o, Cmp: errCmp,
+								Branch: fmt.Sprintf("L=%d/side=%d/where=%d/%s/%s", L, side, where, expect, strings.Fields(o)[0]),
+								Sample: map[string]interface{}{"op": "Armor62OpenWithValidation", "frame_len": L, "side": side, "outcome": strings.Fields(o)[0]},
+								Direct: func() string {
+									if L <= 512 && !strings.HasPrefix(o, "ok payload="+keys.Hex(pl)+" ") {
+										return fmt.Sprintf("a frame of %d characters (within the specification's 512) is not dearmored to the payload: side=%d (0 header, 1 footer) padding-position=%d brand=%q answer=%s text=%q", L, side, where, brand, trunc(o, 120), trunc(text, 700))
+									}
+									return ""
+								}})
+						}
+					}
+				}
+			}
+		}
+	}
 	// --- malformed frames ----------------------------------------------------------
 	payload := r.Bytes(50)
 	good, _ := saltpack.Armor62Seal(payload, saltpack.MessageTypeEncryption, "BRAND")
